@@ -293,6 +293,11 @@ class Gen:
     def fresh_base(self):
         here = {e[0][0] for e in self.scopes[-1]}
         cands = [b for b in BASES if b not in here]
+        if not cands:                       # pool exhausted in this scope: numbered names v1, v2, ..
+            k = 1
+            while "v%d" % k in here:
+                k += 1
+            return "v%d" % k
         return self.r.choice(cands)
 
     def use(self, ent):
